@@ -55,11 +55,16 @@ class Master:
                 late = struct.pack("<HHHBB", 0o3, 0, self.fid, 0, (noise + 1 + k) & 0xFF) + b"yy"
                 self.s.at(self.s.now + dt, lambda t, late=late: self.chip.inject(3, late))
         self.air.log.clear()
-        self.m.update()
-        if noise is not None:
+        self.s.deadline = self.s.now + 400_000_000          # virtual-time watchdog: a master that never returns is an observation
+        try:
             self.m.update()
-            while self.m.available():
-                self.m.read()
+            if noise is not None:
+                self.m.update()
+                while self.m.available():
+                    self.m.read()
+        except sim.WatchdogExpired:
+            self.hung = True
+        self.s.deadline = None
         out = []
         for p in self.air.log:
             d = p["data"]
@@ -71,12 +76,17 @@ class Master:
 
     def request(self, nid, via, noise=None):
         b = self.table()
+        if getattr(self, "hung", False):        # (already reported once; the rest of this history is not executed)
+            return dict(op="hang", id=nid, via=via, before=b, after=b, replies=[], noise=-1)
         rep = self._inject(via, 195, nid, noise=noise)
+        if getattr(self, "hung", False):
+            return dict(op="hang", id=nid, via=via, before=b, after=b, replies=[], noise=-1)
         return dict(op="req", id=nid, via=via, before=b, after=self.table(), replies=rep, noise=-1 if noise is None else noise)
 
     def release(self, addr):
         b = self.table()
-        self._inject(addr, 197, 0)
+        if not getattr(self, "hung", False):
+            self._inject(addr, 197, 0)
         return dict(op="rel", addr=addr, before=b, after=self.table())
 
     def save(self, fmt):
